@@ -62,6 +62,15 @@ func genC04(seed uint64, tier string) C04Cfg {
 	// the statement quantifies over every interleaving of deliveries: a quarter of the runs also let a link
 	// reorder its own messages (an application may dispatch each incoming message on its own goroutine)
 	c.NonFIFO = r.Bool(0.25)
+	// a fifth of the runs: party identifiers that are a rotation of the node identifiers (an injective map in which
+	// every party id is some OTHER node's id: whatever confuses the two identifier spaces addresses a third node)
+	if rm := prng.Derive(seed, "rotated-map"); rm.Bool(0.2) && n >= 2 {
+		c.Deploy.PIDs = map[uint16]uint16{}
+		k := 1 + rm.Intn(n-1)
+		for i, id := range ids {
+			c.Deploy.PIDs[id] = ids[(i+k)%n]
+		}
+	}
 	// a third of the runs: classification of some messages takes simulated time, so that the handling of
 	// messages of different links (and local calls, e.g. the late starter's first send) overlaps
 	if rd := prng.Derive(seed, "classify-delay"); rd.Bool(0.35) {
